@@ -68,3 +68,35 @@
         for f in failures.iter().take(5) { println!("FAILING INPUT: {}", f); }
         assert!(failures.is_empty());
     }
+
+    /// C20 / C12: a part of speech "exists" only as a whole: lookups with fewer or more than six components, with a proper prefix or an
+    /// extension of a registered part of speech, find nothing, and handle_user_pos in forbid mode refuses them
+    #[test]
+    fn verif_oracle_pos_lookup_is_exact() {
+        use crate::util::user_pos::{UserPosMode, UserPosSupport};
+        let mut failures = Vec::new();
+        let mut cases = 0;
+        for l in lists() {
+            if l.is_empty() { continue; }
+            let mut g = mk(&l);
+            for (i, t) in l.iter().enumerate() {
+                let full = tag(*t);
+                let first = l.iter().position(|x| x == t).unwrap();
+                cases += 1;
+                if g.get_part_of_speech_id(&full) != Some(first as u16) && failures.len() < 20 { failures.push(format!("list {:?}: lookup of entry {} gives {:?}", l, i, g.get_part_of_speech_id(&full))); }
+                for n in 0..6usize {
+                    cases += 1;
+                    let part: Vec<String> = full[..n].to_vec();
+                    if g.get_part_of_speech_id(&part).is_some() && failures.len() < 20 { failures.push(format!("list {:?}: the {}-component prefix {:?} is found as id {:?}", l, n, part, g.get_part_of_speech_id(&part))); }
+                    let mut gg = &mut g;
+                    if gg.handle_user_pos(&part, UserPosMode::Forbid).is_ok() && failures.len() < 20 { failures.push(format!("list {:?}: handle_user_pos(forbid) accepts the {}-component list {:?}", l, n, part)); }
+                }
+                let mut longer = full.clone(); longer.push("*".to_string());
+                cases += 1;
+                if g.get_part_of_speech_id(&longer).is_some() && failures.len() < 20 { failures.push(format!("list {:?}: the 7-component list {:?} is found", l, longer)); }
+            }
+        }
+        println!("verif_oracle_pos_lookup_is_exact: {} lookups, {} failures", cases, failures.len());
+        for f in failures.iter().take(5) { println!("FAILING INPUT: {}", f); }
+        assert!(failures.is_empty());
+    }
